@@ -366,10 +366,10 @@ def big_family(out, clauses):
     out.add("traces_validated_against_impl", n)
 
 
-def exh_family(out, clauses):
-    """Exhaustive small scope (one representative per relabelling class, <= 3 symbols, lengths up
-    to 6 quick / 7 thorough for Myers, one less for Patience and LCS) as hook traces."""
-    trace = drive(out, "exh")
+def exh_family(out, clauses, algs="myers,lcs,patience"):
+    """Exhaustive small scope (one representative per relabelling class, <= 3 symbols, both lengths
+    up to 6 quick / 7 thorough) as hook traces, for the given algorithms."""
+    trace = drive(out, "exh", extra=["--algs", algs])
     n = sum(1 for line in open(trace) if '"ev":"start"' in line)
     out.add("evaluations", n)
     out.add("exhaustive_small_scope_cases", n)
@@ -607,7 +607,7 @@ def c03(out):
     judge(out, "c01", trace, "TraceHook", {"minimal"})
     out.add("traces_validated_against_impl", n)
     big_family(out, {"minimal"})
-    exh_family(out, {"minimal"})
+    exh_family(out, {"minimal"}, algs="myers,lcs")
     p2(out, "MCAlgs.tla", alg_cfgs(out, ["myers", "lcs"]))
     p2(out, "MCCompact.tla", ["MCCompact"])
     p3_alg(out, ["myers", "lcs"], {"minimal"}, faults=False)
@@ -636,7 +636,7 @@ def c15(out):
     judge(out, "c01", trace, "TraceHook", {"anchors"})
     out.add("traces_validated_against_impl", n)
     big_family(out, {"anchors"})
-    exh_family(out, {"anchors"})
+    exh_family(out, {"anchors"}, algs="patience")
     p2(out, "MCAlgs.tla", alg_cfgs(out, ["patience"]))
     p3_alg(out, ["patience"], {"anchors"}, faults=False)
     finish_counts(out)
